@@ -163,6 +163,14 @@ def run(ck):
         elif bad_before:
             detail = "Queue::pop at %s is reachable on a bound path without draining the eventfd first" % bad_before[0].loc
         ck.ob("C13-R2", "PollableQueue::pop", ok, f.loc, f, detail)
+        # whatever the eventfd said, the queue itself is looked at: every non-throwing way out of pop() passes Queue::pop -- the
+        # notification count says nothing about what is linked (a producer may be between linking and signalling, or a unit may have
+        # been spent on a pop that found the entry not linked yet)
+        skips = [x for x in cfg.exits_without(f, lambda ev: any(ev is q for q in qpop)) if x.kind != "throw"]
+        ck.ob("C13-R2", "PollableQueue::pop/always-looks-at-the-queue", not skips, (skips[0].event.loc if skips and skips[0].event is not None else f.loc), f,
+              "every path reaches Queue::pop" if not skips else
+              "pop() can return at line %s without looking at the queue: what the eventfd reports decides instead of what is linked"
+              % (skips[0].event.get("l") if skips[0].event is not None else "?"))
 
     # ---------------- R3 / R4 ----------------
     # PollableQueue-typed members, discovered from the class layouts
